@@ -86,7 +86,7 @@ def run(tier):
     # (2) the step obligations on the real parser functions
     run_contracts_sel(pr, [PARSE_UNARY, PARSE_BINARY, PARSE_EXPRESSION], tier, 'C02')
     # (3) bounded stand-in for the composition of the steps into whole trees (never counted as proved)
-    depth = 4 if tier == 'thorough' else 3
+    depth = 5 if tier == 'thorough' else 4
     res = run_witness(CHAIN_CHECK % (RANK, depth), timeout=600)
     pr.bounded.append(f'whole-tree shape and token order: bounded native check of all operator chains up to length {depth} '
                       f'({res.get("chains_checked")} chains) against a precedence-climbing reference, plus unary/group/rejection samples')
